@@ -10,10 +10,11 @@ for i in ids:
     d = os.path.join(VERIF, "seeded", i)
     if not os.path.exists(os.path.join(d, "patch.diff")): continue
     ev = os.path.join(d, "eval.json")
-    if os.path.exists(ev): os.remove(ev)   # fresh record
+    pass  # keep cross-property records; the own-property record is overwritten
     subprocess.run(["python3", os.path.join(VERIF, "seeded_eval.py"), i], capture_output=True, text=True)
     e = json.load(open(ev)) if os.path.exists(ev) else {}
-    ok = any(v.get("detected") for v in e.values())
+    own = json.load(open(os.path.join(d, "meta.json")))["property"] + ":quick"
+    ok = bool(e.get(own, {}).get("detected"))
     print(i, "caught" if ok else "MISSED", {k: v.get("wall_s") for k, v in e.items()}, flush=True)
     if not ok: miss.append(i)
 subprocess.run(["git", "checkout", "evidence/"], cwd=VERIF, capture_output=True)
